@@ -16,11 +16,11 @@ VARIABLES tid, l
 tvars == <<vars, tid, l>>
 
 T == Traces[tid]
-Ev == T.events[l]
 SetOf(seq) == {seq[i] : i \in 1..Len(seq)}
 PhaseNames == SetOf(Phases)
 
-IsEvent(n) == Ev.e = n /\ Ev.x = "ok"
+\* (the current event is passed as a parameter so that TLC evaluates `T.events[l]` once per step)
+Is(ev, n) == ev.e = n /\ ev.x = "ok"
 
 \* Pipeline!Init with tool and input bound to the trace
 TraceInit ==
@@ -39,38 +39,38 @@ TraceInit ==
 ComponentEvents == {"ReadSnippets", "CheckImports", "ToSymbolTable", "Phase", "Translate", "TargetVerify",
                     "TargetGenerate", "Infer", "CsVerify", "CsTypes", "CsVerification"}
 
-Bind ==
-    \/ IsEvent("CheckArgs") /\ CheckArgs
+Bind(Ev) ==
+    \/ Is(Ev, "CheckArgs") /\ CheckArgs
     \* an enclosing component hands on errors that an inner one has already found (and failed on)
     \/ /\ Ev.x = "ok" /\ Ev.e \in ComponentEvents /\ failed # "no"
        /\ Ev.ids # <<>> /\ SetOf(Ev.ids) \subseteq IdsOf(errs)
        /\ UNCHANGED vars
-    \/ IsEvent("ReadSnippets") /\ ReadSnippets(SetOf(Ev.ids))
-    \/ IsEvent("LoadModel") /\ LoadModel
-    \/ IsEvent("ParsePy") /\ ParsePy(Ev.ok)
-    \/ IsEvent("CheckImports") /\ CheckImports(SetOf(Ev.ids))
-    \/ IsEvent("ToSymbolTable") /\ ToSymbolTable(SetOf(Ev.ids))
-    \/ IsEvent("Phase") /\ Ev.p \in PhaseNames /\ TranslatePhase(Ev.p, SetOf(Ev.ids))
-    \/ IsEvent("Translate") /\ TranslateReturn(SetOf(Ev.ids))
+    \/ Is(Ev, "ReadSnippets") /\ ReadSnippets(SetOf(Ev.ids))
+    \/ Is(Ev, "LoadModel") /\ LoadModel
+    \/ Is(Ev, "ParsePy") /\ ParsePy(Ev.ok)
+    \/ Is(Ev, "CheckImports") /\ CheckImports(SetOf(Ev.ids))
+    \/ Is(Ev, "ToSymbolTable") /\ ToSymbolTable(SetOf(Ev.ids))
+    \/ Is(Ev, "Phase") /\ Ev.p \in PhaseNames /\ TranslatePhase(Ev.p, SetOf(Ev.ids))
+    \/ Is(Ev, "Translate") /\ TranslateReturn(SetOf(Ev.ids))
                             /\ (Ev.ok <=> (failed' = "no"))      \* returned a symbol table iff nothing was found
-    \/ IsEvent("CacheWrite") /\ CacheWrite /\ input.cache = "miss"
-    \/ IsEvent("LoadModelReturn") /\ LoadModelReturn(Ev.ok)
-    \/ IsEvent("TargetVerify") /\ TargetVerify(SetOf(Ev.ids))
-    \/ IsEvent("TargetGenerate") /\ TargetGenerate(TRUE, SetOf(Ev.ids))
-    \/ IsEvent("TargetReturn") /\ TargetReturn(Ev.r)
-    \/ IsEvent("Infer") /\ Infer(SetOf(Ev.ids))
-    \/ IsEvent("CsVerify") /\ CsVerify(SetOf(Ev.ids))
-    \/ IsEvent("CsTypes") /\ CsTypes(SetOf(Ev.ids))
-    \/ IsEvent("CsVerification") /\ CsVerification(SetOf(Ev.ids))
-    \/ IsEvent("CsReport") /\ (CsReport \/ (~ENABLED CsReport /\ UNCHANGED vars))
-    \/ IsEvent("Report") /\ Ev.n >= 1 /\ Report([i \in 1..Ev.n |-> 0])
-    \/ IsEvent("ErrorMessage") /\ UNCHANGED vars                  \* rendering of an error: no stage
+    \/ Is(Ev, "CacheWrite") /\ CacheWrite /\ input.cache = "miss"
+    \/ Is(Ev, "LoadModelReturn") /\ LoadModelReturn(Ev.ok)
+    \/ Is(Ev, "TargetVerify") /\ TargetVerify(SetOf(Ev.ids))
+    \/ Is(Ev, "TargetGenerate") /\ TargetGenerate(TRUE, SetOf(Ev.ids))
+    \/ Is(Ev, "TargetReturn") /\ TargetReturn(Ev.r)
+    \/ Is(Ev, "Infer") /\ Infer(SetOf(Ev.ids))
+    \/ Is(Ev, "CsVerify") /\ CsVerify(SetOf(Ev.ids))
+    \/ Is(Ev, "CsTypes") /\ CsTypes(SetOf(Ev.ids))
+    \/ Is(Ev, "CsVerification") /\ CsVerification(SetOf(Ev.ids))
+    \/ Is(Ev, "CsReport") /\ (CsReport \/ (~ENABLED CsReport /\ UNCHANGED vars))
+    \/ Is(Ev, "Report") /\ Ev.n >= 1 /\ Report([i \in 1..Ev.n |-> 0])
+    \/ Is(Ev, "ErrorMessage") /\ UNCHANGED vars                  \* rendering of an error: no stage
     \/ Ev.x = "caught" /\ UNCHANGED vars                          \* an exception handled inside the run
-    \/ IsEvent("Exit") /\ l = Len(T.events) /\ Exit
+    \/ Is(Ev, "Exit") /\ l = Len(T.events) /\ Exit
 
 TraceNext ==
     /\ l <= Len(T.events)
-    /\ Bind
+    /\ LET ev == T.events[l] IN Bind(ev)
     /\ l' = l + 1
     /\ UNCHANGED tid
 
@@ -79,7 +79,7 @@ TraceSpec == TraceInit /\ [][TraceNext]_tvars
 -----------------------------------------------------------------------------
 Obs == T.obs
 ObsClasses == Classes(Obs.lines)
-Finished == l > Len(T.events) /\ stage = "Done"
+Finished == stage = "Done" /\ l > Len(T.events)
 
 \* C01/C03: the run is a behaviour of the pipeline; in particular no exception leaves a stage
 Inv_TraceAccepted == l > Len(T.events) \/ ENABLED TraceNext
